@@ -5,6 +5,7 @@ mod corpus;
 mod gen;
 mod rng;
 mod p15;
+mod p04;
 mod p06;
 mod p07;
 mod p11;
@@ -124,6 +125,7 @@ fn main() {
         }
         "C07" => p07::run(&args),
         "C06" => p06::run(&args),
+        "C04" => p04::run(&args),
         "C17" => p17::run(&args),
         "C08" => p08::run08(&args),
         "C09" => p08::run09(&args),
